@@ -231,6 +231,7 @@ int do_op (string line) {
   case "newcls": v[a] = new (class c06cls); break;
   case "newbuf": v[a] = allocate_buffer (b); break;
   case "newfun": v[a] = obs[b]->mkfun (v[c]); break;
+  case "newffun": v[a] = obs[b]->mkff (c); break;
   case "fill": {
     mixed *arr = allocate (b);
     int i;
